@@ -13,6 +13,7 @@ import (
 	ethcmn "github.com/ethereum/go-ethereum/common"
 	ethcore "github.com/ethereum/go-ethereum/core"
 	ethtypes "github.com/ethereum/go-ethereum/core/types"
+	ethcrypto "github.com/ethereum/go-ethereum/crypto"
 	"github.com/pkg/errors"
 	"github.com/tendermint/tendermint/abci/types"
 	"github.com/tendermint/tendermint/libs/kv"
@@ -127,6 +128,10 @@ func (tx *Transaction) getEthSigner(ctx *action.Context) ethtypes.Signer {
 func (tx *Transaction) validateSigner(ctx *action.Context, signedTx action.SignedTx) error {
 	if len(signedTx.Signatures) != 1 {
 		return errors.New("invalid signatures count")
+	}
+	// WithSignature panics on a signature that is not [R || S || V]
+	if len(signedTx.Signatures[0].Signed) != ethcrypto.SignatureLength {
+		return ethtypes.ErrInvalidSig
 	}
 
 	//validate basic signature
